@@ -71,6 +71,8 @@ EDITS=[
  ("C13","equals-sign-unquoted","syntax/quote.go",("\t\t\t// Might result in an assignment.\n\t\t\t'=':","\t\t\t// Might result in an assignment.\n\t\t\t'%':"),"syntax.Quote#"),
  ("C13","posix-error-for-mksh","syntax/quote.go",("\t\t\tif lang.in(LangPOSIX) {\n\t\t\t\treturn \"\", &QuoteError{ByteOffset: offs, Message: quoteErrPOSIX}","\t\t\tif lang.in(LangPOSIX | LangMirBSDKorn) {\n\t\t\t\treturn \"\", &QuoteError{ByteOffset: offs, Message: quoteErrPOSIX}"),"syntax.Quote#ensures@posix-error-only-for-posix"),
  ("C13","null-byte-accepted","syntax/quote.go",("\t\tcase '\\x00':\n\t\t\treturn \"\", &QuoteError{ByteOffset: offs, Message: quoteErrNull}\n",""),"syntax.Quote#"),
+ ("C04","simplifyword-keeps-pending-backslash","syntax/simplify.go",("\t\t\tcase '$', '\"', '`':\n\t\t\t\tescaped = false","\t\t\tcase '$', '\"', '`':"),"syntax.simplifier.simplifyWord#"),
+ ("C04","simplifyword-forgets-modified","syntax/simplify.go",("\t\ts.modified = true\n\t\twps[i] = &SglQuoted{","\t\twps[i] = &SglQuoted{"),"syntax.simplifier.simplifyWord#onstore@wps"),
 ]
 SEEDS=[ # prop, seed dir, expect
  ("C09","C09-2","syntax.ArithmExp.End#"),
@@ -87,13 +89,14 @@ SEEDS=[ # prop, seed dir, expect
  ("C16","C16-1","expand.bracesSeqRec#inv-init@loop2.pad-covers-endpoints"),
  ("C20","C20-1","expand.Config.assgnArit#ensures@reads-old-value-first"),("C20","C20-2","syntax.Parser.arithmExpr#precedence@"),
  ("C04","C04-1","syntax.simplifier.visit#ensures@match-keeps-quotes"),("C04","C04-2","syntax.simplifier.removeNegateTest#ensures@complement-table"),
- ("C13","C13-1","syntax.Quote#"),("C34","C34-1","expand.listEnviron_#"),("C34","C34-3","expand.listEnviron_#"),("C09","C09-1","syntax.Parser.rune#"),("C09","C09-3","syntax.Stmt.End#"),("C09","C09-4","syntax.Parser.rune#"),("C33","C33-2","expand.Config.sliceElems#ensures@sparse-offset"),("C20","C20-4","syntax.Parser.arithmExpr#precedence@"),("C18","C18-1","pattern.QuoteMeta#"),("C18","C18-2","pattern.HasMeta#"),
+ ("C13","C13-1","syntax.Quote#"),("C28","C28-3","interp.Runner.builtin#onstore@"),("C04","C04-4","syntax.simplifier.simplifyWord#"),("C34","C34-1","expand.listEnviron_#"),("C34","C34-3","expand.listEnviron_#"),("C09","C09-1","syntax.Parser.rune#"),("C09","C09-3","syntax.Stmt.End#"),("C09","C09-4","syntax.Parser.rune#"),("C33","C33-2","expand.Config.sliceElems#ensures@sparse-offset"),("C20","C20-4","syntax.Parser.arithmExpr#precedence@"),("C18","C18-1","pattern.QuoteMeta#"),("C18","C18-2","pattern.HasMeta#"),
  ("C28","C23-2","interp.Runner.readLine#inv-pres@"),("C23","C23-2","interp.Runner.readLine#inv-pres@"),("C23","C23-1","expand.ReadFields#inv-"),
  ("C06","C06-2","syntax#eof-exit@Parser.zshSubFlags"),
  ("C08","C06-1","syntax.Parser.reset#"),
  ("C07","C07-1","syntax#refill-retry@Parser.rune"),("C07","C07-2","syntax#refill-at-boundary@Parser.rune"),("C07","C08-2","syntax#refill-at-boundary@Parser.advanceLitHdoc"),
 ]
 REVERTS=[ # prop, fix commit in /repo whose reversal must be caught, expect
+ ("C04","1629043","syntax.simplifier.simplifyWord#onstore@SglQuoted.Dollar"),
  ("C09","c1165de","syntax.Parser.rune#inv-init@loop1.col-tracks-next-byte"),
  ("C07","baece75","syntax#refill-at-boundary@Parser.rune"),
  ("C07","fd8acef","syntax#refill-at-boundary@Parser.next"),
